@@ -50,6 +50,9 @@ impl TimeSnapshot {
                 + t * self.root_variance_linear
                 + t.powi(2) * self.root_variance_quadratic
                 + t.powi(3) * self.root_variance_cubic)
+                // rounding (or a clock stepped back behind the base time) can leave the
+                // polynomial marginally negative; that is a dispersion of zero, not NaN
+                .max(0.0)
                 .sqrt(),
         )
     }
